@@ -6,13 +6,17 @@
 //
 //  1. opcode-level cases `var a, b T = …; println(a OP b)` for every operator × kind × boundary-rich
 //     operands: Scriggo vs. the generated VM terms (vmOp … through the Lean driver) vs. Spec/GoInt;
+//
 //  2. typed expression trees (all widths, nested, shifts with small/huge/negative counts,
 //     conversions, division by zero under recover): Scriggo vs. the Lean evaluator Model/Eval;
+//
 //  3. a sample of 1 and 2 compiled and run by gc (`go run`, offline): validates Spec/GoInt and
 //     Model/Eval themselves (spec_validation in the evidence), independent of the model.
 //
 //  5. the emitter model against the disassembled code (compile.go); 6. conditions (cond.go);
+//
 //  4. whole programs over a wide part of the language against gc (prog.go, gcdiff.go);
+//
 //  7. the struct family: embedded structs, promoted fields, selector chains of different depths in
 //     different orders inside one function, against gc, the Lean evaluator of Model/Struct.lean
 //     and the field-index table model (structs.go, structrun.go).
